@@ -31,7 +31,7 @@ ASSUMPTIONS = [
     "a driver that does not return within 180 s makes the run inconclusive (exit 2), not a violation",
 ]
 TOLERANCES = {"fields": "1e-12 * max|reference| (double), 1e-6 (single)", "metadata": "exact"}
-BUDGET = {"quick": dict(examples=40, shards=1), "thorough": dict(examples=60, shards=8, procs=8)}
+BUDGET = {"quick": dict(examples=90, shards=1), "thorough": dict(examples=60, shards=8, procs=8)}
 NO_SHRINK = {"quick": True}
 # a wrong result that a driver returned once under a drawn schedule is a violation even if the same schedule does not
 # reproduce it (completion order of real processes is only steered, not forced, by the injected delays)
